@@ -631,12 +631,16 @@ def anaOracle (i : AnalyseInput) (entries : List Entry) (sug : Suggestion) : Lis
   let singles : List (List Roa) :=
     (sug.stale ++ sug.redundant ++ sug.as0Redundant).map (fun rc => without rc.payload) ++
     sug.tooPermissive.map (fun r => without r.current.payload ++ r.new_)
-  let o6 := if singles.all (fun roas => validNow.all (fun a => a.asn == 0 || isValid roas a))
+  -- (hypothesis of the theorem: the held payloads are pairwise distinct, as the keys of a
+  -- CA's route map are; the analyser itself accepts any list)
+  let distinct := held.eraseDups.length == held.length
+  let o6 := if !distinct || singles.all (fun roas => validNow.all (fun a => a.asn == 0 || isValid roas a))
     then [] else ["suggest_safe"]
   -- … and so does the whole suggestion applied at once
   let (added, removed) := sug.toUpdates
   let after := held.filter (fun r => !(removed.contains r)) ++ added.map (·.payload)
-  let o7 := if validNow.all (fun a => a.asn == 0 || isValid after a) then [] else ["suggest_safe_combined"]
+  let o7 := if !distinct || validNow.all (fun a => a.asn == 0 || isValid after a) then []
+    else ["suggest_safe_combined"]
   o1 ++ o1b ++ o2 ++ o3 ++ o4 ++ o5 ++ o6 ++ o7
 
 def anaOp (ws ows : List String) : String :=
